@@ -861,6 +861,60 @@ impl<'a> Gen<'a> {
                 let other = Some(E::Lit(n + 1));
                 out.push(S::Emit(E::Eq(false, Box::new(E::Var(u1)), Box::new(mk(&other))), T::Bool));
             }
+            if self.p.chance(1, 2) {
+                // stored in an anonymous record, copied, one copy mutated
+                let u3 = self.new_var(T::Unit, None);
+                let u4 = self.new_var(T::Unit, None);
+                self.vars[u3].live = false;
+                self.vars[u4].live = false;
+                out.push(S::Let(u3, None, E::Rec(None, vec![("p".into(), E::Var(u1)), ("q".into(), E::Arg(0))])));
+                out.push(S::Let(u4, None, E::Var(u3)));
+                out.push(S::Set(u4, vec![(1, "q".into())], E::Lit(self.p.below(200) as i128)));
+                out.push(S::Emit(E::Fld(Box::new(E::Var(u3)), 1, "q".into()), T::Int(false, 8)));
+                out.push(S::Emit(E::Fld(Box::new(E::Var(u4)), 1, "q".into()), T::Int(false, 8)));
+                out.push(S::Emit(E::Eq(true, Box::new(E::Var(u3)), Box::new(E::Var(u4))), T::Bool));
+                out.push(S::Emit(
+                    E::Eq(false, Box::new(E::Fld(Box::new(E::Var(u4)), 0, "p".into())), Box::new(E::Var(u2))),
+                    T::Bool,
+                ));
+            }
+            if self.p.chance(1, 2) {
+                // matched: the arm of the uninhabited variant binds a value of type `!`
+                let (pats, payload_ty): ([(&str, usize); 2], T) = match ctor {
+                    "None" => ([("Some", 0), ("None", 1)], T::Unit),
+                    "Ok" => ([("Ok", 0), ("Err", 1)], T::Int(true, 32)),
+                    _ => ([("Ok", 0), ("Err", 1)], T::Str),
+                };
+                let mut arms = vec![];
+                for (pat, ptag) in pats {
+                    let has_field = !(ctor == "None" && ptag == 1);
+                    let binds: Vec<usize> = if has_field {
+                        let b = self.new_var(T::Unit, None);
+                        self.vars[b].live = false;
+                        vec![b]
+                    } else {
+                        vec![]
+                    };
+                    let mut body = vec![S::Emit(E::Lit(ptag as i128), T::Int(false, 8))];
+                    if has_field && ptag == tag && ctor != "None" {
+                        body.push(S::Emit(E::Var(binds[0]), payload_ty.clone()));
+                    }
+                    arms.push(Arm { pat: Some((pat.to_string(), ptag)), binds, guard: None, body });
+                }
+                out.push(S::Match(E::Var(u2), arms));
+            }
+            if self.p.chance(1, 3) {
+                // a list of them, shared between two names
+                let l1 = self.new_var(T::Unit, None);
+                let l2 = self.new_var(T::Unit, None);
+                self.vars[l1].live = false;
+                self.vars[l2].live = false;
+                out.push(S::Let(l1, None, E::Lst(vec![E::Var(u1), E::Var(u2)])));
+                out.push(S::Let(l2, None, E::Var(l1)));
+                out.push(S::Push(E::Var(l2), mk(&payload)));
+                out.push(S::Emit(E::Len(Box::new(E::Var(l1))), T::Int(false, 64)));
+                out.push(S::Emit(E::Contains(Box::new(E::Var(l1)), Box::new(E::Var(u1))), T::Bool));
+            }
             self.kinds.insert("unconstrained-type-variable");
         } else if r < 96 {
             // == / != between two values of one type
